@@ -1,7 +1,7 @@
 (* C10 - Outages block a component for exactly their duration, then release it. *)
 From Coq Require Import List ZArith Bool.
 From JSL Require Import Base.Res Base.ListX SM.Types SM.Util SM.Handler SM.Step SM.Inv
-  SMP.Post SMP.PostApply SMP.Offers SMP.Clock SM.Middleware SM.Example SMP.StepInv SMP.Clock SMP.Outages SM.Events SMP.Reflect SMP.LiftProv SMP.EventsRun.
+  SMP.Post SMP.PostApply SMP.Offers SMP.Clock SM.Middleware SM.Example SMP.StepInv SMP.Clock SMP.Outages SM.Events SMP.Reflect SMP.LiftProv SMP.EventsRun SMP.Due.
 From JSL Require Import SM.Events SMP.SampledOk.
 Import ListNotations.
 
@@ -144,3 +144,15 @@ Theorem C10_outage_events_hold_along_every_run :
     reach sigma i fuel x0 joker0 ta r m -> mw_step sigma i fuel r m a = MOk r' m' lg -> chain_events i (r_x r) lg.
 Proof. intros sigma i fuel x0 joker0 ta r m a r' m' lg Hnn. apply run_events_ok; auto. Qed.
 Print Assumptions C10_outage_events_hold_along_every_run.
+
+(* over whole runs of every instance: a machine's OUTAGE -> IDLE and an AGV's OUTAGE -> IDLE are applied exactly when the block computed from the
+   longest active outage has elapsed (ev_due, SMP/Due.v) *)
+Theorem C10_outage_ends_exactly_when_due_along_every_run :
+  forall (sigma : oracle) (i : inst) (fuel : nat) (x0 : state) (joker0 : Z) (ta : bool) (r : result) (m : mw)
+         (a : Z) (r' : result) (m' : mw) (lg : mlog),
+    inst_nonneg_b i = true ->
+    clock_b x0 = true -> wfs_b i x0 = true -> fresh2_b i x0 = true -> nodep_b x0 = true -> pre_ok_b x0 = true ->
+    reach sigma i fuel x0 joker0 ta r m -> mw_step sigma i fuel r m a = MOk r' m' lg -> chain_due (r_x r) lg.
+Proof. intros sigma i fuel x0 joker0 ta r m a r' m' lg Hnn. apply (run_due_ok sigma i Hnn); auto. Qed.
+Print Assumptions C10_outage_ends_exactly_when_due_along_every_run.
+
